@@ -136,7 +136,8 @@ func registerEnvStubs(e *Engine) {
 		return iface{}
 	}
 	in["zz.RegoCompiles"] = func(fr *frame, a []value) value {
-		return regoCompiles(mustStr(a[0], "RegoCompiles code"))
+		// a module text that depends on symbolic inputs is enumerated (the compiler runs natively)
+		return regoCompiles(fr.i.ps.concretizeStr(a[0]))
 	}
 
 	// ---------- library-level stubs (enabled per path with StubOn) ----------
@@ -401,15 +402,31 @@ func registerEnvStubs(e *Engine) {
 
 	// ---------- encoding/json ----------
 	in["encoding/json.NewDecoder"] = func(fr *frame, a []value) value {
-		var cell value = nativeObj{jsonDecoder{reader: a[0]}}
+		var cell value = nativeObj{&jsonDecoder{reader: a[0]}}
 		return &cell
+	}
+	// More: for readable data there is exactly one top-level value; for unreadable data the answer
+	// is arbitrary (no more bytes, a stray closing bracket, or garbage that looks like a value)
+	in["(*encoding/json.Decoder).More"] = func(fr *frame, a []value) value {
+		dec := (*a[0].(*value)).(nativeObj).v.(*jsonDecoder)
+		if dec.unreadable(fr.i.ps) {
+			ps := fr.i.ps
+			name := "decode.more"
+			if sc, ok := ps.store["scope"].(string); ok && sc != "" {
+				name = sc + "." + name
+			}
+			c := ps.choose(2)
+			ps.inputs = append(ps.inputs, &Input{Name: ps.uniq(name), Kind: "choice", Conc: int64(c)})
+			return c == 1
+		}
+		return dec.docs == 0
 	}
 	in["(*encoding/json.Decoder).UseNumber"] = func(fr *frame, a []value) value { return nil }
 	in["(*encoding/json.Decoder).Decode"] = func(fr *frame, a []value) value {
 		ps := fr.i.ps
 		ps.env().logs = append(ps.env().logs, "json.Decode")
 		// what the decoder reads: the unread content of its reader (a *bytes.Buffer in this code base)
-		dec := (*a[0].(*value)).(nativeObj).v.(jsonDecoder)
+		dec := (*a[0].(*value)).(nativeObj).v.(*jsonDecoder)
 		var content value = "<<unknown reader>>"
 		var bufCell *value
 		if r, ok := dec.reader.(iface); ok {
@@ -420,7 +437,7 @@ func registerEnvStubs(e *Engine) {
 				}
 			}
 		}
-		if ps.flagDecide("decode.err") {
+		if dec.unreadable(ps) || dec.docs > 0 {
 			// a failed Decode has consumed an arbitrary part of the input: all of it, or nothing
 			if bufCell != nil && ps.choose(2) == 0 {
 				drainBuffer(bufCell)
@@ -430,6 +447,7 @@ func registerEnvStubs(e *Engine) {
 		if bufCell != nil {
 			drainBuffer(bufCell)
 		}
+		dec.docs++
 		// the decoded document is an uninterpreted function of the text that was read
 		dst := a[1].(iface).v.(*value)
 		*dst = iface{t: types.Typ[types.String], v: concatStr(ps, []value{"<<json:", content, ">>"})}
@@ -475,6 +493,10 @@ func registerEnvStubs(e *Engine) {
 		if g, ok := ps.store["flatten.result"]; ok {
 			return tuple{g, iface{}}
 		}
+		if doc, ok := a[1].(iface); ok && doc.t == nil {
+			// the processor flattens a null document to an empty list of nodes
+			return tuple{iface{t: types.NewSlice(anyType), v: []value{}}, iface{}}
+		}
 		// default: a graph with a single typed node
 		mt := types.NewMap(types.Typ[types.String], anyType)
 		node := makeMap(types.Typ[types.String], 0).(*omap)
@@ -497,7 +519,7 @@ func registerEnvStubs(e *Engine) {
 	}
 
 	// ---------- OPA ----------
-	mkOpt := func(o regoOpt) value { return &closure{Fn: nil, Env: []value{nativeObj{o}}} }
+	mkOpt := mkRegoOpt
 	in["(github.com/open-policy-agent/opa/ast.Errors).Error"] = func(fr *frame, a []value) value { return "stub: rego compile error" }
 	in[regoPkg+".Query"] = func(fr *frame, a []value) value { return mkOpt(regoOpt{"query", a[0], nil}) }
 	in[regoPkg+".Module"] = func(fr *frame, a []value) value { return mkOpt(regoOpt{"module", a[0], a[1]}) }
@@ -512,6 +534,11 @@ func registerEnvStubs(e *Engine) {
 		n, _ := ps.store["rego.New.count"].(int)
 		ps.store["rego.New.count"] = n + 1
 		rec := map[string]value{}
+		var kinds []value
+		for _, o := range opts {
+			kinds = append(kinds, o.kind)
+		}
+		rec["kinds"] = kinds
 		for _, o := range opts {
 			switch o.kind {
 			case "query":
@@ -546,6 +573,8 @@ func registerEnvStubs(e *Engine) {
 				keys = append(keys, x.keys[i])
 			}
 			return iface{t: types.NewSlice(types.Typ[types.String]), v: keys}
+		case []value:
+			return iface{t: types.NewSlice(types.Typ[types.String]), v: x}
 		}
 		return iface{}
 	}
@@ -929,7 +958,22 @@ func normSite(s string) string {
 	return s
 }
 
-type jsonDecoder struct{ reader value }
+type jsonDecoder struct {
+	reader  value
+	decided bool
+	bad     bool
+	docs    int
+}
+
+// unreadable: is no complete JSON value readable from this decoder's input? (environment's choice,
+// made once per decoder and published as the fault flag decode.err)
+func (d *jsonDecoder) unreadable(ps *pathState) bool {
+	if !d.decided {
+		d.decided = true
+		d.bad = ps.flagDecide("decode.err")
+	}
+	return d.bad
+}
 
 type regoOpt struct {
 	kind string
@@ -1010,4 +1054,22 @@ func findMarker(v value, depth int) value {
 		}
 	}
 	return nil
+}
+
+func mkRegoOpt(o regoOpt) value { return &closure{Fn: nil, Env: []value{nativeObj{o}}} }
+
+// genericRegoOption: any other option constructor of package rego is recorded by name, so that
+// the gate lemma can see options that were not there before.
+func genericRegoOption(fn *ssa.Function) (value, bool) {
+	if fn.Pkg == nil || fn.Pkg.Pkg.Path() != "github.com/open-policy-agent/opa/rego" {
+		return nil, false
+	}
+	res := fn.Signature.Results()
+	if res.Len() != 1 {
+		return nil, false
+	}
+	if sig, ok := res.At(0).Type().Underlying().(*types.Signature); ok && sig.Params().Len() == 1 {
+		return mkRegoOpt(regoOpt{kind: "other:" + fn.Name()}), true
+	}
+	return nil, false
 }
